@@ -104,8 +104,8 @@ Definition dec (c : cfg) (o : op) : dec_t val :=
   | OUUIDInts => dmap VBy (read_uuid_ints (fx1 c))
   | OString max => dmap VBy (read_string_max max)
   | OBytes max => dmap VBy (read_bytes_len (fx2 c) max)
-  | OBytes17 _ => dmap VBy (read_bytes17 (fx2 c) (fx3 c))
-  | OFShort => dmap (fun n => VZ (Z.of_N n)) (read_fshort (fx3 c))
+  | OBytes17 _ => dmap VBy (read_bytes17 (fx1 c) (fx2 c) (fx3 c))
+  | OFShort => dmap (fun n => VZ (Z.of_N n)) (read_fshort (fx1 c) (fx3 c))
   | OStrings => dmap (fun l => VL (map VBy l)) read_string_array
   | OVarInts => dmap (fun l => VL (map VZ l)) read_varint_array
   | OProps => dmap (fun l => VL (map of_prop l)) (read_properties (fx4 c))
@@ -154,7 +154,8 @@ Definition in_dom (o : op) (v : val) : bool :=
 Inductive kind :=
 | KRound (rest : bytes)          (* ReadX on (WriteX v ++ rest) *)
 | KPrefix (k : N)                (* ReadX on the first k bytes of WriteX v, k < length *)
-| KLen (l : Z) (tail : bytes).   (* ReadX on (length prefix l ++ tail) *)
+| KLen (l : Z) (tail : bytes)    (* ReadX on (length prefix l ++ tail) *)
+| KRaw (input : bytes).          (* ReadX on arbitrary bytes: no claim of the property, model agreement only *)
 
 Inductive obs :=
 | ObsOk (v : val) (consumed : N)
@@ -184,6 +185,7 @@ Definition input_of (c : case) : option bytes :=
   | KPrefix k, Some e => if k <? len e then Some (take k e) else None
   | KPrefix _, None => None
   | KLen l tail, _ => Some (len_header (c_op c) l ++ tail)
+  | KRaw input, _ => Some input
   end.
 
 Definition obs_eqb (a b : obs) : bool :=
@@ -203,7 +205,7 @@ Definition to_obs (input : bytes) (r : res (val * bytes)) : obs :=
 
 Definition enc_agrees (g : cfg) (c : case) : bool :=
   match c_kind c with
-  | KLen _ _ => true
+  | KLen _ _ | KRaw _ => true
   | _ => match enc g (c_op c) (c_val c), c_enc c with
          | Some (Ok e), Some e' => beq_bytes e e'
          | Some (Err _), None => true
@@ -240,6 +242,7 @@ Definition holds (c : case) : bool :=
     if in_dom (c_op c) (c_val c) then match c_dec c with ObsErr => true | _ => false end else true
   | KLen l _ =>
     if bad_len (c_op c) l then match c_dec c with ObsErr => true | _ => false end else true
+  | KRaw _ => true
   end.
 
 (* ---------- recorded findings: which configurations to try, and the trigger classes ---------- *)
@@ -248,9 +251,10 @@ Definition cfgs (o : op) : list cfg :=
   match o with
   | OU _ | OI _ | OUUIDInts | OUTF => [cfg_spec; mkcfg false true true true true]
   | OBytes _ => [cfg_spec; mkcfg true false true true true]
-  | OBytes17 _ => [cfg_spec; mkcfg true false true true true; mkcfg true true false true true;
+  | OBytes17 _ => [cfg_spec; mkcfg false true true true true; mkcfg true false true true true;
+                   mkcfg false false true true true; mkcfg true true false true true;
                    mkcfg true false false true true]
-  | OFShort => [cfg_spec; mkcfg true true false true true]
+  | OFShort => [cfg_spec; mkcfg false true true true true; mkcfg true true false true true]
   | OProps => [cfg_spec; mkcfg true true true false true]
   | OMinKey => [cfg_spec; mkcfg true true true true false]
   | _ => [cfg_spec]
@@ -265,13 +269,14 @@ Definition trig1 (c : case) (input : bytes) : bool :=
   | OU w | OI w => (0 <? len input) && (len input <? w)
   | OUUIDInts => (12 <? len input) && (len input <? 16)
   | OUTF => beq_bytes input [0]
+  | OFShort | OBytes17 _ => len input =? 1       (* the 2-byte short, once it is read with ReadUint16 *)
   | _ => false
   end.
 (* finding 2: the single rd.Read of the array body met an empty reader with length 0, or fewer bytes than length *)
 Definition trig2 (g : cfg) (c : case) (input : bytes) : bool :=
   let hdr := match c_op c with
              | OBytes max => len_bytes max input
-             | OBytes17 _ => len_bytes17 (fx3 g) input
+             | OBytes17 _ => len_bytes17 (fx1 g) (fx3 g) input
              | _ => Err EInvalid
              end in
   match hdr with
